@@ -41,7 +41,7 @@ var c19HostForms = []hostForm{
 	{"userinfo-www-service-colon", func(s string) string { return "www." + s + ":443@evil.example" }},
 }
 
-var c19Paths = []string{"/embed/VID1", "/embed/VID1/", "/v/VID1", "/VID1", "/embed/", "/", "", "/video/VID1", "/embed/VID1?start=1", "/v/VID1&start=1", "/u/status/VID1", "/video/", "/embed/VID1//"}
+var c19Paths = []string{"/embed/VID1", "/embed/VID1/", "/v/VID1", "/VID1", "/embed/", "/", "", "/video/VID1", "/embed/VID1?start=1", "/v/VID1&start=1", "/u/status/VID1", "/video/", "/embed/VID1//", "/embed/VI%22D1", "/embed/VID1%3Cb%3E"}
 
 var c19Tags = []string{"iframe", "object-data", "object-param", "tw-blockquote", "iframe-tweet"}
 
@@ -105,6 +105,18 @@ func c19Enumerate(tier string, emit func(*eng.Case)) {
 	}
 	for _, f := range all {
 		emit(&eng.Case{Kind: "frame", URL: c19Page, HTML: c19Doc([]string{c19Frame(c19Tags[f.tag], src(f))}, "body"), P: map[string]string{"doc": desc(f)}})
+	}
+	// frames without a usable source on a page that itself lives on an allow-listed host
+	for _, pu := range []string{"http://www.youtube.com/watch/news", "https://player.vimeo.com/video/777", "https://twitter.com/someone/status/555"} {
+		for _, srcv := range []string{"", "#player", "\x00"} {
+			for tg := range c19Tags {
+				fr := c19Frame(c19Tags[tg], srcv)
+				if srcv == "\x00" {
+					fr = strings.NewReplacer(" src=\"\x00\"", "", " data=\"\x00\"", "", " href=\"\x00\"", "", " value=\"\x00\"", "").Replace(fr)
+				}
+				emit(&eng.Case{Kind: "frame-selfhost", URL: pu, HTML: c19Doc([]string{fr}, "body"), P: map[string]string{"doc": fmt.Sprintf("page %s, %s with source %q", pu, c19Tags[tg], srcv)}})
+			}
+		}
 	}
 	// scheme-relative and absolute sources distilled without a page URL
 	for _, f := range all {
@@ -244,7 +256,11 @@ func c19Check(c *eng.Case) *eng.Outcome {
 				continue
 			}
 			fs, _ := frameSrc(f)
-			if id != "" && (strings.Contains(fs, id) || ora.AttrV(f, "data-tweet-id") == id) {
+			fsDec, derr := nurl.PathUnescape(fs)
+			if derr != nil {
+				fsDec = fs
+			}
+			if id != "" && (strings.Contains(fs, id) || strings.Contains(fsDec, id) || ora.AttrV(f, "data-tweet-id") == id) {
 				srcNode = f
 				used[i] = true
 				break
@@ -302,6 +318,9 @@ func c19Check(c *eng.Case) *eng.Outcome {
 			for i := len(segs) - 1; i >= 0; i-- {
 				if s := strings.TrimSpace(segs[i]); s != "" {
 					want = s
+					if dec, err := nurl.PathUnescape(s); err == nil {
+						want = dec // the id is the decoded path segment
+					}
 					break
 				}
 			}
@@ -346,8 +365,8 @@ func init() {
 	eng.Register(&eng.Prop{
 		ID:        "C19",
 		DesignRef: "§5 C19",
-		Rule: "source URLs = 4 schemes (http, https, scheme-relative, none) x 5 services (4 allow-listed + vimeo.com) x 18 host forms (exact, www, deep subdomain, suffix/prefix look-alikes, userinfo tricks, name in path/query/fragment, port, upper case, trailing dot) x 13 path/query shapes x 5 tag kinds (iframe, object data, object param, twitter blockquote, rendered-tweet iframe): full product in the article body; " +
-			"the frames with the 1 (quick) / 4 (thorough) leading path shapes also inside a data-table cell, a figure caption, a layout table, a <picture> that has an <img>, and a figure>picture>span; every scheme-relative (thorough: also absolute) source once more without any page URL; thorough adds pairs of frames. Oracle: every embed placeholder maps to a source frame whose reference-parsed host is an allow-listed host of its data-type or a subdomain, with data-id = last non-empty path segment (resp. data-tweet-id); no iframe/object outside placeholder, table or caption. " +
+		Rule: "source URLs = 4 schemes (http, https, scheme-relative, none) x 5 services (4 allow-listed + vimeo.com) x 18 host forms (exact, www, deep subdomain, suffix/prefix look-alikes, userinfo tricks, name in path/query/fragment, port, upper case, trailing dot) x 15 path/query shapes (ids with an escaped quote or angle brackets) x 5 tag kinds (iframe, object data, object param, twitter blockquote, rendered-tweet iframe): full product in the article body; " +
+			"the frames with the 1 (quick) / 4 (thorough) leading path shapes also inside a data-table cell, a figure caption, a layout table, a <picture> that has an <img>, and a figure>picture>span; every scheme-relative (thorough: also absolute) source once more without any page URL; frames with an empty, fragment-only or missing source on pages that live on an allow-listed host; thorough adds pairs of frames. Oracle: every embed placeholder maps to a source frame whose reference-parsed host is an allow-listed host of its data-type or a subdomain, with data-id = last non-empty path segment (resp. data-tweet-id); no iframe/object outside placeholder, table or caption. " +
 			"Non-trivial = a look-alike source is present or a placeholder was produced.",
 		Enumerate: c19Enumerate,
 		Check:     c19Check,
